@@ -30,7 +30,9 @@ Definition cm_log (outs : list (Z + Z)) : op nat (list Z) Z Z :=
              end.
 
 (* one step of one Generation value: the population before it, what was asked, what was observed *)
-Definition step_ok (mode : Z) (pop : list Z) (fail_at : Z) (res final_t lg_t : tree) : option (bool * bool * bool * list Z) :=
+Definition step_ok (mode0 : Z) (pop : list Z) (fail_at : Z) (res final_t lg_t : tree) : option (bool * bool * bool * list Z) :=
+    (* mode 100 + T: scored individuals, child maker through GenomeScorer - judged exactly like mode T *)
+    let mode := if 100 <=? mode0 then mode0 - 100 else mode0 in
     olet final := tlist tZ final_t in olet lg := tlist dec_entry lg_t in
     let n := length pop in
     let outs := map outcome lg in
